@@ -41,6 +41,7 @@ partial def readVD : Sexp → Option VD
     pure (.dynView (← g.toNat?) (VDAlts.ofList alts))
   | .list (.atom "show" :: .atom g :: cs) => do pure (.show (← g.toNat?) (VDList.ofList (← cs.mapM readVD)))
   | .list (.atom "frag" :: cs) => do pure (.frag (VDList.ofList (← cs.mapM readVD)))
+  | .list (.atom "nohydrate" :: cs) => do pure (.noHydrate (VDList.ofList (← cs.mapM readVD)))
   | _ => none
 end
 
@@ -109,7 +110,7 @@ partial def showCh : List Ch → String
       | .cmt s => "C:" ++ showStr s
       | .el t as ks =>
         let adopted := as.head? == some ([1], [])
-        let as := as.filter (·.1 != [1])
+        let as := as.filter (fun a => a.1 != [1] && a.1 != [2])
         (if adopted then "E*:" else "E:") ++ showStr t ++ "[" ++ ";".intercalate ((sortAttrs as).map fun (n, v) => n ++ "=" ++ v) ++ "]{" ++ showCh ks ++ "}"
     let b := showCh r
     if b.isEmpty then a else a ++ "," ++ b
@@ -132,7 +133,9 @@ def handleHydrate (line : String) : String :=
           | .error .markerNotFound => "H=panic-marker"
           | .error .textNotFound => "H=panic-text"
           | .error .shape => "H=panic-shape"
-        " | ".intercalate (runWritesVis σ inst k m (if writes == "-" then [] else writes.splitOn ",") [h, out])
+        -- afterwards: `NoHydrate` islands stay as the server rendered them (a dynamic view re-created
+        -- later mounts its `NoHydrate` children normally: the hydration phase is over)
+        " | ".intercalate (runWritesVis σ (SycVerif.Hydrate.afterHydrationList σ inst) k m (if writes == "-" then [] else writes.splitOn ",") [h, out])
       | none => "bad-op"
     | _ => "bad-op"
   | _, _ => "bad-op"
